@@ -61,7 +61,8 @@ HotApply(hot, kv, op, gone) ==
     [] op.t = "delete"  -> [hot EXCEPT ![op.id] = NoMirror]
     [] op.t \in {"flush", "restart"} -> NoHot
     [] op.t = "fdel"    -> [d \in Ids |-> IF d \in gone THEN NoMirror ELSE hot[d]]
-    [] OTHER            -> hot         \* bulkload: the mirror is left as it is
+    [] op.t = "bulkload" -> [hot EXCEPT ![op.id] = NoMirror]   \* the mirror of a bulk-loaded id is evicted (fix of F14)
+    [] OTHER            -> hot
 HotIds(hot) == { d \in Ids : hot[d].p }
 
 \* ---- counters (vacuity evidence), added component-wise
